@@ -4352,11 +4352,19 @@ coap_check_code_lg_xmit(const coap_session_t *session,
 #if COAP_CLIENT_SUPPORT
 void
 coap_check_update_token(coap_session_t *session, coap_pdu_t *pdu) {
-  uint64_t token_match =
-      STATE_TOKEN_BASE(coap_decode_var_bytes8(pdu->actual_token.s,
-                                              pdu->actual_token.length));
+  uint64_t token_full = coap_decode_var_bytes8(pdu->actual_token.s,
+                                               pdu->actual_token.length);
+  uint64_t token_match = STATE_TOKEN_BASE(token_full);
   coap_lg_xmit_t *lg_xmit;
   coap_lg_crcv_t *lg_crcv;
+
+  /*
+   * Every token generated by libcoap for a block transfer carries a retry
+   * count of at least 1.  A token without one is the application's own, even
+   * if its value happens to equal the counter part of an internal token.
+   */
+  if (STATE_TOKEN_RETRY(token_full) == 0)
+    return;
 
   if (session->lg_crcv) {
     LL_FOREACH(session->lg_crcv, lg_crcv) {
